@@ -225,10 +225,17 @@ def st_shared_history(draw):
         elif kind == "redec":
             steps.append(["redec", draw(st.integers(0, 5)), draw(st.sampled_from(["require", "ensure"]))])
         elif kind == "reuse":
-            steps.append(["cls", draw(st.integers(0, 2)), -1, "both"])  # the sub-class re-uses the root's method: m = Root.m
+            # the sub-class re-uses the root's method (m = Root.m); with a second root that defines m differently
+            step = ["cls", draw(st.integers(0, 2)), -1, "both"]
+            if draw(st.booleans()):
+                step.append(draw(st.integers(0, 2)))
+            steps.append(step)
         else:
-            steps.append(["cls", draw(st.integers(0, 2)), draw(st.integers(0, n_bare - 1)),
-                          draw(st.sampled_from(["pre", "post", "both"]))])
+            step = ["cls", draw(st.integers(0, 2)), draw(st.integers(0, n_bare - 1)),
+                    draw(st.sampled_from(["pre", "post", "both"]))]
+            if draw(st.integers(0, 3)) == 0:
+                step.append(draw(st.integers(0, 2)))  # a second root: class Sub(Root_a, Root_b)
+            steps.append(step)
     return {"shared_history": steps, "n_bare": n_bare}
 
 
@@ -322,28 +329,35 @@ def check_shared_history(ctx, case):
             base.pop(name, None)
             feats.add("stacked-on-existing-wrapper")
         else:
-            _, r, k, what = st_
-            if r not in roots:
-                cp, cq = new_cid(), new_cid()
+            r, k = st_[1], st_[2]
+            r2 = st_[4] if len(st_) > 4 and st_[4] != r else None
+            for rr in [r] + ([r2] if r2 is not None else []):
+                if rr not in roots:
+                    cp, cq = new_cid(), new_cid()
 
-                class Root(icontract.DBC):
-                    @icontract.require(mk_cond(cp), error=_Viol(cp))
-                    @icontract.ensure(mk_cond(cq, True), error=_Viol(cq))
-                    def m(self, x):
-                        LOG.append("root-body")
-                        return -1
-                Root.__name__ = "Root%d" % r
-                roots[r] = (Root, {cp, cq})
-                objs["Root%d" % r] = (lambda K: lambda x: K().m(x))(Root)
-                own["Root%d" % r] = {cp, cq}
-                snap = probe_all()
-                for nme, v in snap.items():
-                    base.setdefault(nme, v)
+                    class Root(icontract.DBC):
+                        @icontract.require(mk_cond(cp), error=_Viol(cp))
+                        @icontract.ensure(mk_cond(cq, True), error=_Viol(cq))
+                        def m(self, x):
+                            LOG.append("root-body")
+                            return -1
+                    Root.__name__ = "Root%d" % rr
+                    roots[rr] = (Root, {cp, cq})
+                    objs["Root%d" % rr] = (lambda K: lambda x: K().m(x))(Root)
+                    own["Root%d" % rr] = {cp, cq}
+                    snap = probe_all()
+                    for nme, v in snap.items():
+                        base.setdefault(nme, v)
             Root, rc = roots[r]
+            bases_ = (Root,) + ((roots[r2][0],) if r2 is not None else ())
+            if r2 is not None:
+                feats.add("two-roots")
+                if k >= 0:
+                    rc = rc | roots[r2][1]  # an override inherits from both; a re-used Root.m stays Root's
             ns = {"m": bares[k] if k >= 0 else Root.__dict__["m"]}
             if k < 0:
                 feats.add("base-method-re-used-as-is")
-            Sub = type(Root)("Sub%d" % si, (Root,), ns)
+            Sub = type(Root)("Sub%d" % si, bases_, ns)
             objs["Sub%d" % si] = (lambda K: lambda x: K().m(x))(Sub)
             own["Sub%d" % si] = set(rc)
             if k >= 0 and sum(1 for s in steps[:si + 1] if s[0] == "cls" and s[2] == k) >= 2:
